@@ -72,9 +72,14 @@ def special_or(draw, specials, lo, hi):
 
 @st.composite
 def shift_nu(draw, mininu):
-    k = draw(st.integers(0, 3))
+    k = draw(st.integers(0, 4))
     if k == 0:
         return mininu
+    if k == 1:
+        # round values (exactly 1, 10, 0.5 ...) that code may single out
+        v = draw(st.sampled_from([1., 1., 0.5, 2., 10., 0.1, 100., 0.01]))
+        if v >= mininu:
+            return v
     return mininu + logu(draw(unit), 1e-6, 1e3)
 
 
@@ -94,10 +99,10 @@ def params(draw, cls, ctor):
         return {"nu": draw(shift_nu(ctor["mininu"])),
                 "lam": draw(special_or(LAM_SPECIAL, ctor["minilam"], 3.))}
     if cls == "YeoJohnson":
-        nu = draw(st.sampled_from([0., None]))
+        nu = draw(st.sampled_from([0., None, None, 1., -1.]))
         if nu is None:
             nu = 30 * draw(sunit)
-        sc = draw(st.sampled_from([1e-5, 1., None]))
+        sc = draw(st.sampled_from([1e-5, 1., None, None, 2., 0.5, 10.]))
         if sc is None:
             sc = logu(draw(unit), 1e-5, 1e3)
         return {"nu": nu, "scale": sc,
@@ -105,17 +110,20 @@ def params(draw, cls, ctor):
     if cls == "Reciprocal":
         return {"nu": draw(shift_nu(ctor["mininu"]))}
     if cls == "Sinh":
-        nu = draw(st.sampled_from([0., None]))
+        nu = draw(st.sampled_from([0., None, None, 1., -1.]))
         if nu is None:
             nu = 30 * draw(sunit)
-        sc = draw(st.sampled_from([1e-10, 1., None, None, 1e10]))
+        sc = draw(st.sampled_from([1e-10, 1., None, None, 1e10, 2., 0.5]))
         if sc is None:
             sc = logu(draw(unit), 1e-10, 1e10)
         return {"nu": nu, "scale": sc}
     if cls == "LogSinh":
         return {"loga": draw(special_or([-20., 0., -1.], -20., 0.)),
                 "logb": draw(special_or([-5., 5., 0.], -5., 5.)),
-                "xmax": logu(draw(unit), 1e-3, 1e4)}
+                "xmax": draw(st.one_of(
+                    st.sampled_from([1., 10., 100., 0.5]),
+                    st.builds(lambda u: logu(u, 1e-3, 1e4), unit),
+                    st.builds(lambda u: logu(u, 1e-3, 1e4), unit)))}
     if cls == "Manly":
         lam = draw(special_or(MANLY_SPECIAL, -5., 5.))
         if lam != 0 and abs(lam) < 1e-3:
